@@ -1,13 +1,20 @@
 #!/usr/bin/env python3
-"""mkmut.py <name> <file-relative-to-/repo> <old> <new>  -> writes /verif/sensitivity/<name>.diff (the /repo tree is left unchanged)"""
-import sys, subprocess
+"""mkmut.py <name> <file-relative-to-repo> <old> <new>  -> writes /verif/sensitivity/<name>.diff
+Works in a scratch worktree (/tmp/mut-wt), so /repo's working tree is never touched."""
+import sys, subprocess, os
 name, f, old, new = sys.argv[1:5]
-p = '/repo/' + f
+wt = '/tmp/mut-wt'
+if not os.path.isdir(wt):
+    subprocess.check_call(['git', '-C', '/repo', 'worktree', 'add', '--detach', wt, 'HEAD'], stdout=subprocess.DEVNULL, stderr=subprocess.DEVNULL)
+head = subprocess.check_output(['git', '-C', '/repo', 'rev-parse', 'HEAD'], text=True).strip()
+subprocess.check_call(['git', '-C', wt, 'checkout', '-q', '--detach', head])
+subprocess.check_call(['git', '-C', wt, 'checkout', '--', '.'])
+p = f'{wt}/{f}'
 s = open(p).read()
 if s.count(old) != 1:
     sys.exit(f"{name}: pattern occurs {s.count(old)} times in {f}")
 open(p, 'w').write(s.replace(old, new))
-d = subprocess.check_output(['git', '-C', '/repo', 'diff'], text=True)
-subprocess.check_call(['git', '-C', '/repo', 'checkout', '--', '.'])
+d = subprocess.check_output(['git', '-C', wt, 'diff'], text=True)
+subprocess.check_call(['git', '-C', wt, 'checkout', '--', '.'])
 open(f'/verif/sensitivity/{name}.diff', 'w').write(d)
 print(name, 'ok', len(d.splitlines()), 'lines')
